@@ -2,6 +2,7 @@ package level
 
 import (
 	"io"
+	mathbits "math/bits"
 	"strconv"
 
 	"github.com/Tnze/go-mc/level/biome"
@@ -33,9 +34,34 @@ func NewStatesPaletteContainer(length int, defaultValue BlocksState) *PaletteCon
 	}
 }
 
+// saveBits reports the entry width the save format uses for a palette of n entries:
+// enough bits to index the palette, but not less than min (0 for a single entry).
+func saveBits(n, min int) int {
+	if n <= 1 {
+		return 0
+	}
+	b := mathbits.Len(uint(n - 1))
+	if b < min {
+		b = min
+	}
+	return b
+}
+
+// directFromSave translates palette indices of the save form into a direct (global) storage.
+func directFromSave[T State](bits, directBits, length int, data []uint64, pat []T) *BitStorage {
+	src := NewBitStorage(bits, length, data)
+	dst := NewBitStorage(directBits, length, nil)
+	for i := 0; i < length; i++ {
+		dst.Set(i, int(pat[src.Get(i)]))
+	}
+	return dst
+}
+
 func NewStatesPaletteContainerWithData(length int, data []uint64, pat []BlocksState) *PaletteContainer[BlocksState] {
 	var p palette[BlocksState]
-	n := calcBitsPerValue(length, len(data))
+	// The width is defined by the palette size. It can't be inferred from
+	// the data length: different widths can need the same number of longs.
+	n := saveBits(len(pat), 4)
 	switch n {
 	case 0:
 		p = &singleValuePalette[BlocksState]{pat[0]}
@@ -56,7 +82,14 @@ func NewStatesPaletteContainerWithData(length int, data []uint64, pat []BlocksSt
 			bits:   n,
 		}
 	default:
-		p = &globalPalette[BlocksState]{}
+		// The save form always indexes its palette,
+		// but beyond 8 bits the container holds state ids directly.
+		return &PaletteContainer[BlocksState]{
+			bits:    block.BitsPerBlock,
+			config:  statesCfg{},
+			palette: &globalPalette[BlocksState]{},
+			data:    directFromSave(n, block.BitsPerBlock, length, data, pat),
+		}
 	}
 	return &PaletteContainer[BlocksState]{
 		bits:    n,
@@ -77,7 +110,7 @@ func NewBiomesPaletteContainer(length int, defaultValue BiomesState) *PaletteCon
 
 func NewBiomesPaletteContainerWithData(length int, data []uint64, pat []BiomesState) *PaletteContainer[BiomesState] {
 	var p palette[BiomesState]
-	n := calcBitsPerValue(length, len(data))
+	n := saveBits(len(pat), 0)
 	switch n {
 	case 0:
 		p = &singleValuePalette[BiomesState]{pat[0]}
@@ -87,7 +120,12 @@ func NewBiomesPaletteContainerWithData(length int, data []uint64, pat []BiomesSt
 			bits:   n,
 		}
 	default:
-		p = &globalPalette[BiomesState]{}
+		return &PaletteContainer[BiomesState]{
+			bits:    biome.BitsPerBiome,
+			config:  biomesCfg{},
+			palette: &globalPalette[BiomesState]{},
+			data:    directFromSave(n, biome.BitsPerBiome, length, data, pat),
+		}
 	}
 	return &PaletteContainer[BiomesState]{
 		bits:    n,
@@ -95,6 +133,34 @@ func NewBiomesPaletteContainerWithData(length int, data []uint64, pat []BiomesSt
 		palette: p,
 		data:    NewBitStorage(n, length, data),
 	}
+}
+
+// saveForm returns the palette and the packed indices the save format holds for p.
+// The in-memory storage is reused when it already has the save format's width;
+// otherwise (direct storage, or a palette received with a wider entry size) a palette
+// of the values in use is built and the positions are packed again.
+func (p *PaletteContainer[T]) saveForm(minBits int) (pat []T, data []uint64) {
+	length := p.data.Len()
+	_, direct := p.palette.(*globalPalette[T])
+	if pat = p.palette.export(); !direct && p.data.bits == saveBits(len(pat), minBits) {
+		data = make([]uint64, len(p.data.Raw()))
+		copy(data, p.data.Raw())
+		return pat, data
+	}
+	pat = nil
+	ids := make(map[T]int)
+	for i := 0; i < length; i++ {
+		v := p.Get(i)
+		if _, ok := ids[v]; !ok {
+			ids[v] = len(pat)
+			pat = append(pat, v)
+		}
+	}
+	storage := NewBitStorage(saveBits(len(pat), minBits), length, nil)
+	for i := 0; i < length; i++ {
+		storage.Set(i, ids[p.Get(i)])
+	}
+	return pat, storage.Raw()
 }
 
 func (p *PaletteContainer[T]) Get(i int) T {
